@@ -2,6 +2,7 @@ package verifworld
 
 import (
 	"fmt"
+	"net/http"
 	"strings"
 
 	vs "metacontroller/pkg/internal/verifsim"
@@ -114,8 +115,8 @@ func PropC15(c *vs.Case, f Factory, kind string) error {
 	customizeCalls := map[string]int{}
 	countCalls := func(hs []*HookExchange) {
 		for _, h := range hs {
-			if h.URL != CustomizeURL {
-				continue
+			if h.URL != CustomizeURL || h.Response.Code != 200 || h.Response.Err != nil {
+				continue // only answers can be cached
 			}
 			p, _ := h.Request["parent"].(map[string]any)
 			customizeCalls[fmt.Sprintf("%s/gen%v", metaStr(p, "uid"), metaOfMap(p)["generation"])]++
@@ -131,10 +132,36 @@ func PropC15(c *vs.Case, f Factory, kind string) error {
 			log = append(log, "parent generation bumped")
 		}
 		env.W.SyncAll()
+		failCustomize := c.Prob(1, 6)
+		if failCustomize {
+			// a transient failure of the customize hook: reported, retried, never cached as an answer
+			env.W.Hooks.Handle(CustomizeURL, func(_ *http.Request, _ []byte) HookResponse {
+				return HookResponse{Code: 503, Body: []byte("unavailable")}
+			})
+		}
 		t := env.Sync()
+		if failCustomize {
+			scn.Prog.Install(env.W, scn.Cfg.Kind)
+		}
 		countCalls(t.Hooks)
 		if t.Panic != "" {
 			return vs.Violf("C15/panic", "panic: %s", t.Panic)
+		}
+		if failCustomize {
+			asked := false
+			for _, h := range t.Hooks {
+				if h.URL == CustomizeURL {
+					asked = true
+				}
+			}
+			if asked {
+				c.Class("customize-hook-failed-once")
+				if t.Err == nil {
+					return withTrace(vs.Violf("C15/customize-failure-not-reported", "the customize hook answered 503 but the sync reported no error"), t)
+				}
+				log = append(log, "customize hook failed (503)")
+				continue
+			}
 		}
 		var syncCalls []*HookExchange
 		for _, h := range t.Hooks {
